@@ -174,7 +174,7 @@ func startEnv() (*scriptedTransport, *dnsScript, func()) {
 // ---- resolution workload ----
 
 var wkOutcomes = []string{"absent", "404", "500", "203", "oversized-with-length", "oversized-no-length", "malformed", "no-m.server", "empty-m.server", "to-name", "to-name-port", "to-ipv4", "to-ipv4-port", "to-ipv6", "to-ipv6-port", "to-invalid", "wrong-type"}
-var srvOutcomes = []string{"none", "fed", "legacy", "both", "three", "same-target-two-ports", "same-record-twice", "trailing-dot", "root-target", "one-malformed-target", "legacy-one-malformed-target", "fed-servfail", "legacy-servfail"}
+var srvOutcomes = []string{"none", "fed", "legacy", "both", "three", "same-target-two-ports", "same-record-twice", "trailing-dot", "root-target", "root-target-next-to-a-record", "one-malformed-target", "legacy-one-malformed-target", "fed-servfail", "legacy-servfail"}
 
 func mkSRV(target string, port uint16) dns.SRV {
 	return dns.SRV{Target: dns.Fqdn(target), Port: port, Priority: 10, Weight: 5}
@@ -214,6 +214,11 @@ func srvFor(outcome, name string) (srvScript, ref.SRVAnswer) {
 	case "root-target":
 		// a record whose target is the root "." says the service is not offered: it names no host to connect to
 		sc.fed = []dns.SRV{{Target: ".", Port: 8445, Priority: 0, Weight: 0}}
+	case "root-target-next-to-a-record":
+		// the same record next to an ordinary one (tenth seeding round, C16-T): the root names no host here either; the
+		// ordinary record is a target (the monitor also lets the whole answer count for "not offered")
+		sc.fed = []dns.SRV{{Target: ".", Port: 8445, Priority: 0, Weight: 0}, mkSRV("fed."+name, 8443)}
+		ans.Fed = []ref.SRVRecord{{Target: "fed." + name, Port: 8443}}
 	case "one-malformed-target":
 		// one record whose target is no host name (a blank inside a label) next to a good one: the good record is the
 		// SRV answer (Go's resolver hands the valid records back together with an error about the other)
@@ -345,6 +350,14 @@ func c16Resolutions(c *mon.Ctx, st *scriptedTransport, ds *dnsScript) {
 					if so == "three" || so == "same-target-two-ports" {
 						sort.Strings(gs)
 						sort.Strings(ws)
+					}
+					if so == "root-target-next-to-a-record" && strings.Join(gs, " | ") != strings.Join(ws, " | ") {
+						// (reading the root record as "the service is not offered at all" is as good: then nothing of the answer counts)
+						alt, _, _, _ := ref.Resolve(name, wkRes, ref.SRVAnswer{})
+						ws = ws[:0]
+						for _, r := range alt {
+							ws = append(ws, fmt.Sprintf("%s host=%s sni=%s", r.Destination, r.Host, r.TLSName))
+						}
 					}
 					if strings.Join(gs, " | ") != strings.Join(ws, " | ") {
 						c.Failf("resolve:wrong-target:"+resolveClass(name, wk, so), "ResolveServer(%q) with well-known=%s srv=%s\n got  %v\n want %v", name, wk, so, gs, ws)
